@@ -68,6 +68,9 @@ CHECKS.update({
     "C11": dict(level="model_checking", design_ref="DESIGN.md 4/C11, 10", note=_C_NOTE + " Two objects, every placement, plans failing the 1st or 2nd call on a replica; a second battery uses two real local stores as replicas.",
                 technique="TLA+ design spec Mirrored.tla (round-robin first replica, repair through the replicator, parallel Put / FindMissing, error naming) model-checked with TLC against MirrorDefs.tla; all two-operation behaviours from every placement enumerated, longer ones simulated, mutant counterexamples added; all replayed on the real mirroredBlobAccess over model back ends and over two real local stores; every observation validated by TLC against MirrorContractTrace.tla",
                 text="Monitor: a successful upload is in both replicas; a read returns the object whenever a replica holds it and no replica failed, and then the replica consulted first holds it; FindMissing reports missing exactly the objects both lack and has copied the one-sided ones; any replica failure other than NOT_FOUND yields an error that names the replica and is not NOT_FOUND; nothing is ever removed from a replica."),
+    "C12": dict(level="model_checking", design_ref="DESIGN.md 4/C12, 10", note=_C_NOTE + " Selector design: every score assignment in 1..3 (quick) / 1..4 and 4 shards (thorough) x every order of key hashes x every listing of every non-empty subset of shards. Real selector: 60 (quick) / 3000 (thorough) random maps of 1-6 shards x ~120 hashes each. The 64-bit fixed-point score itself is outside TLC's integer range and is exercised, not modelled.",
+                technique="TLA+ design spec Sharding.tla: part 'selector' transcribes NewRendezvousShardSelector / GetShard over an arbitrary score function and TLC checks order independence and minimal disruption under removal / addition for every score assignment with ties (mutants: no sort, zero scores); part 'composite' models shardingBlobAccess over back ends with failing shards and is model-checked against ShardingDefs.tla, its simulated behaviours and mutant counterexamples replayed on the real composite with an arbitrary configuration order; the real rendezvous selector is probed on random shard maps with hashes crafted through the inverse of its mixer (logarithm argument 0, 1, 2^k, 2^k+-1, 2^64-1, table boundaries) and hashes hunted for score ties, under permutations, every single removal and random additions; every observation validated by TLC against ShardingContractTrace.tla",
+                text="Monitor (selector): same answer when asked again, from a rebuilt selector and from selectors built from permutations of the same (key, weight) pairs; removing a shard changes the answer only if the removed shard was the answer; adding a shard changes the answer only to the added shard; no panic. Monitor (composite): every back-end call carries the caller's operation and exactly the digests whose leading eight hash bytes the selector maps to that shard, whatever the instance name, digest function, size and hash tail; each shard is called at most once, and exactly the shards that own a digest when nothing fails; FindMissing returns exactly the union of the shards' answers; a failing shard yields an error naming a failing shard's key; NOT_FOUND carries the key too; contents change only by successful uploads on the owning shard."),
     "C13": dict(level="model_checking", design_ref="DESIGN.md 4/C13, 10", note=_C_NOTE + " Exhaustive: 81k cases (<=1 output file, stdout, stderr, <=1 output directory with root and <=1 child, 3 Tree states, <=1 object missing, batch sizes 1/2/100, FindMissing failure, size limit), 6000 of them executed per quick run and all in the thorough tier, plus 4000 / 60000 random wide cases (<=3 directories, <=3 children, malformed digests at every position, truncated / failing / garbage Trees, five digest functions).",
                 technique="TLA+ spec CompletenessDefs.tla / Completeness.tla: the state space is the list of (ActionResult shape, CAS contents, batch size, fault, size limit) cases; TLC checks the statement-by-statement transcription of checkCompleteness and its FindMissing queue against the contract for every case (five design mutants killed) and emits the cases; each case is built as real REv2 protobuf messages and executed on the real completenessCheckingBlobAccess over a model AC and a recording model CAS; TLC validates every observation against CompletenessContractTrace.tla (contract layer decides VIOLATION, design layer reports DRIFT)",
                 text="Monitor: the ActionResult is returned only if the AC entry is readable, no digest anywhere in it or in its Trees is malformed, every Tree is readable, the Trees fit the configured total size, and every referenced object - output files, stdout, stderr, Tree objects, root directories, files inside Trees and, when a root directory digest is given, directories inside Trees - exists and was reported present by a successful FindMissing call made during this Get; when the only thing wrong is a missing object the error is NOT_FOUND. The set of references is computed by the specification from the case, independently of the code."),
